@@ -5,6 +5,7 @@ package main
 // correspondence comes with a concrete failing input.
 
 import (
+	"crypto"
 	"bytes"
 	"crypto/sha256"
 	"encoding/binary"
@@ -601,6 +602,30 @@ func oracleC11(e *Env, i int) *Violation {
 		if d.Used {
 			live = append(live, d)
 		}
+	}
+	// the hash-type code of a signature descriptor, through the format's own table (1 SHA-256,
+	// 2 SHA-384, 3 SHA-512, 4 BLAKE2s-256, 5 BLAKE2b-256)
+	sifHash := map[int32]crypto.Hash{1: crypto.SHA256, 2: crypto.SHA384, 3: crypto.SHA512, 4: crypto.BLAKE2s_256, 5: crypto.BLAKE2b_256}
+	var hv *Violation
+	f.WithDescriptors(func(d sif.Descriptor) bool {
+		if d.DataType() != sif.DataSignature {
+			return false
+		}
+		var rc rawCapture
+		if d.GetMetadata(&rc) != nil {
+			return false
+		}
+		ex := append(append([]byte{}, rc.b...), make([]byte, 4)...)
+		if want, ok := sifHash[le32(ex)]; ok {
+			if ht, _, err := d.SignatureMetadata(); err != nil || ht != want {
+				hv = &Violation{Prop: "C11", Key: "C11:descriptor-fields", What: fmt.Sprintf("signature %d: hash-type code %d is reported as %v (%v), the format's table says %v", d.ID(), le32(ex), ht, err, want), Op: i}
+				return true
+			}
+		}
+		return false
+	})
+	if hv != nil {
+		return hv
 	}
 	// the two fields no accessor exposes (uid, gid) are visible in the integrity stream
 	var streams [][]byte
